@@ -26,6 +26,16 @@ CLAIMED['C17'] = (
     'stand-in member objects (object.__new__ + symbolic code); codes unique per member (checked natively each run)',
     '5 C17')
 
+CLAIMED['C12'] = (
+    'inductive step decided by the solver: from every valid vector (K<=3 quick / 4 thorough items, fixed- and '
+    'variable-size items, MIN/MAX bounds themselves symbolic) one operation with symbolic arguments (constructor, '
+    'append, insert, extend, +=, pop, remove, del[i], del[a:b], v[i]=x, v[a:b]=xs, reverse, clear) leaves contents == '
+    'plain-list model, recorded size == sum of item sizes within bounds, refuses exactly when the result would leave '
+    'the bounds and then changes nothing; one step from an arbitrary invariant state covers histories of any length. '
+    'Native side condition: every library vector class x seed vectors, recorded size == encoded body == prefix',
+    'harness subclasses of Vector/VectorParsable with param objects built without their constructor; item values '
+    '0..8; slice positions -4..4; library classes only through their seed vectors (concrete)', '5 C12')
+
 NOT_APPLICABLE = {
     'C19': 'asymptotic claim (work linear in input size for n, 2n, 4n, ...): a bounded symbolic execution fixes the '
            'input size, so a pass says nothing about growth; the total-work bound needs an amortised argument over '
